@@ -272,6 +272,7 @@ def owns(idx, shard, nshards):
 
 
 CUR = Acc()   # accumulator the case functions report telemetry to
+QUICK_HINT = False   # set by a property's run() before forking when quick-tier case functions trim their inner menus
 
 
 def drive(acc, fn_name, fn, cases, shard, nshards, family=None, deadline=None,
